@@ -111,6 +111,8 @@ def poly_bound(coefs, rho):
 
 def make_simu(kind: str, mesh, dim: int, thickness: float, dof_n: int = 1):
     """-> (simu, unknowns, thickness factor used in 2D)"""
+    if kind == "weakforms" and len(gm.main_groups(mesh)) != 1:
+        kind = "thermal" if (dof_n == 1 or dim == 1) else "elastic"  # a Field lives on one group: mixed meshes fall back
     if kind == "elastic":
         mat = Models.Elastic.Isotropic(dim, E=3.0, v=0.25, planeStress=True, thickness=thickness) if dim == 2 else \
             Models.Elastic.Isotropic(3, E=3.0, v=0.25)
@@ -118,10 +120,7 @@ def make_simu(kind: str, mesh, dim: int, thickness: float, dof_n: int = 1):
     elif kind == "thermal":
         simu = Simulations.Thermal(mesh, Models.Thermal(k=1.5, c=1.0, thickness=thickness))
     elif kind == "weakforms":
-        groups = gm.main_groups(mesh)
-        if len(groups) != 1:
-            raise Inconclusive("WeakForms needs a single main group")
-        field = Field(groups[0], dof_n)
+        field = Field(gm.main_groups(mesh)[0], dof_n)
 
         @BiLinearForm
         def computeK(u, v):
@@ -130,7 +129,7 @@ def make_simu(kind: str, mesh, dim: int, thickness: float, dof_n: int = 1):
         simu = Simulations.WeakForms(mesh, Models.WeakForms(field, computeK, thickness=thickness))
     else:
         raise KeyError(kind)
-    return simu, list(simu.Get_unknowns()), (float(thickness) if dim == 2 else 1.0)
+    return simu, list(simu.Get_unknowns()), (float(thickness) if dim == 2 else 1.0), kind
 
 
 def neumann(simu, mesh):
@@ -221,7 +220,7 @@ def check_lsv(case, rec):
     mesh = gm.build(r)
     geo = cg.Geometry(r)
     types = gm.mesh_types(mesh)
-    simu, unknowns, th = make_simu(case["sim"], mesh, dim, case["thickness"], min(case["dof_n"], max(dim, 1)))
+    simu, unknowns, th, simk = make_simu(case["sim"], mesh, dim, case["thickness"], min(case["dof_n"], max(dim, 1)))
     kind = case["kind"]
     ldim = 1 if kind == "line" else (dim - 1 if kind == "surf" else dim)
     fac = th if (dim == 2 and kind in ("surf", "vol")) else 1.0
@@ -259,8 +258,8 @@ def check_lsv(case, rec):
         if extra.size:
             polluted = True
             nodes = np.concatenate([nodes, extra])[np.random.default_rng(case["pollute"]).permutation(nodes.size + extra.size)]
-    sig0 = dict(kind=kind, sim=case["sim"], dim=dim, loaded=ltypes)
-    rec.label("mesh:" + types, "loaded:" + ltypes, f"call:{kind}{dim}d", "sim:" + case["sim"], "select:" + how,
+    sig0 = dict(kind=kind, sim=simk, dim=dim, loaded=ltypes)
+    rec.label("mesh:" + types, "loaded:" + ltypes, f"call:{kind}{dim}d", "sim:" + simk, "select:" + how,
               "region:" + rkind, "polluted" if polluted else "clean", "affine" if r.get("A") else "plain",
               f"thickness:{case['thickness']}" if dim == 2 else "thickness:n/a")
 
@@ -370,7 +369,7 @@ def check_point(case, rec):
         mesh = gm.build(r)
         geo = cg.Geometry(r)
         types = gm.mesh_types(mesh)
-        simu, unknowns, _ = make_simu(case["sim"], mesh, dim, case["thickness"], min(case["dof_n"], dim))
+        simu, unknowns, _, _ = make_simu(case["sim"], mesh, dim, case["thickness"], min(case["dof_n"], dim))
     coord = np.asarray(mesh.coord, float)
     dof_n = len(unknowns)
     exp = np.zeros((mesh.Nn, dof_n))
@@ -443,7 +442,7 @@ def check_pressure(case, rec):
     mesh = gm.build(r)
     geo = cg.Geometry(r)
     types = gm.mesh_types(mesh)
-    simu, unknowns, th = make_simu(case["sim"], mesh, dim, case["thickness"], dim)
+    simu, unknowns, th, simk = make_simu(case["sim"], mesh, dim, case["thickness"], dim)
     ents = geo.regions(dim - 1)
     idx = case["region"] % len(ents)
     reg = ents[idx]
@@ -465,7 +464,7 @@ def check_pressure(case, rec):
             polluted = True
             nodes = np.concatenate([nodes, extra])
     p = case["p"]
-    sig = dict(sim=case["sim"], dim=dim, loaded=ltypes, face=reg.name.rstrip("0123456789"))
+    sig = dict(sim=simk, dim=dim, loaded=ltypes, face=reg.name.rstrip("0123456789"))
     rec.label("pmesh:" + types, "ploaded:" + ltypes, "pface:" + sig["face"], "pselect:" + how,
               "ppolluted" if polluted else "pclean", "paffine" if r.get("A") else "pplain")
     R, F = _pressure_resultant(simu, mesh, nodes, p)
@@ -497,7 +496,7 @@ def check_pressure(case, rec):
         rec.require(s == ref, "pressure_sign_uniform",
                     f"{types}: a positive pressure pushes {'outward' if s > 0 else 'inward'} on {g.name} but "
                     f"{'outward' if ref > 0 else 'inward'} on the other faces of the same body (signs {signs})",
-                    sim=case["sim"], dim=dim, face=g.name.rstrip("0123456789"), reflected=bool(r.get("A")) and
+                    sim=simk, dim=dim, face=g.name.rstrip("0123456789"), reflected=bool(r.get("A")) and
                     float(np.linalg.det(np.array(r["A"], float))) < 0)
     rec.nontrivial(nel >= 2)
 
@@ -509,7 +508,11 @@ def check_pressure(case, rec):
 @st.composite
 def beam_cases(draw):
     spec = draw(gb.member_specs())
-    loads = [dict(comp=draw(st.integers(0, 5)), form=draw(st.sampled_from(["const", "const", "array", "func"])),
+    mode = draw(st.sampled_from(["free", "free", "x+", "x+", "x-"]))
+    if mode != "free":  # member on the global x axis: local and global axes of the loaded unknown coincide
+        n = float(max(1.0, round(2 * float(np.linalg.norm(spec["d"]))) / 2))
+        spec = dict(spec, d=[n if mode == "x+" else -n, 0.0, 0.0], yAxis=None)
+    loads = [dict(comp=draw(st.integers(0, 5)), form=draw(st.sampled_from(["const", "array", "func", "func"])),
                   deg=draw(st.integers(0, 2)), seed=draw(st.integers(0, 999)),
                   cst=draw(st.sampled_from([1, -2, 3, 0.5, -1.5, 2.25]))) for _ in range(draw(st.integers(1, 3)))]
     return dict(member=spec, loads=loads, select=draw(st.integers(0, 2)), O=[draw(st.integers(-4, 4)) / 2.0 for _ in range(3)])
@@ -528,12 +531,11 @@ def check_beam(case, rec):
     nodes = select_nodes(mesh, seg, how, None)
     coord = np.asarray(mesh.coord, float)
     O = np.array(case["O"] if dim == 3 else case["O"][:2] + [0.0], float)
-    aligned = bool(np.allclose(frame, np.eye(3), atol=1e-12))
     omax = gm.ORDER[spec["elemType"]]
     L = float(np.linalg.norm(P2 - P1))
     rho = float(np.abs(coord).max()) + 1e-9
     arm = rho + float(np.abs(O).max())
-    rec.label(f"beam:{kind}:{spec['elemType']}:{dim}d", "bselect:" + how, "frame:" + ("aligned" if aligned else "inclined"))
+    rec.label(f"beam:{kind}:{spec['elemType']}:{dim}d", "bselect:" + how)
     ntr = 3 if dim == 3 else 2  # translational unknowns
     seen = set()
     maxdeg = 0
@@ -576,11 +578,13 @@ def check_beam(case, rec):
         else:
             R_ex, M_ex = q0 * e, np.cross(q1, e)
         hermitian = (kind == "eb") and name not in ("x", "rx")
+        # does the member's local axis of that name coincide with the global one (documented frame of gen_beam)?
+        aligned = bool(np.allclose(frame["xyz".index(name[-1])], e, atol=1e-12))
         in_space = (form != "array") or hermitian or d == 0 or (d + 1 <= omax)
         scale = L * poly_bound(coefs, rho)
         sig = dict(kind=kind, dim=dim, path="hermitian" if hermitian else "lagrange", frame="aligned" if aligned else "inclined",
                    form=form, array_moment="n/a" if form != "array" else ("xf_in_space" if in_space else "xf_not_in_space"))
-        rec.label("bpath:" + sig["path"], "bform:" + form, "bunknown:" + ("couple" if is_couple else "force"))
+        rec.label("bpath:" + sig["path"] + ":" + sig["frame"], "bform:" + form, "bunknown:" + ("couple" if is_couple else "force"))
         msg = (f"{kind} {spec['elemType']} {dim}D member d={spec['d']} yAxis={spec.get('yAxis')}: {form} deg={d} line load on "
                f"'{name}' ({sig['path']} path)")
         rec.close(R_obs - R_ex, scale, TOL * 5, "beam_resultant", f"{msg}: sum of nodal forces {R_obs}, exact {R_ex}", **sig)
